@@ -21,6 +21,7 @@ theorem const_Float_DECODE_ERROR_eq : Generated.Consts.Float_DECODE_ERROR = Msgs
 theorem const_SortFloat_DECODE_ERROR_eq : Generated.Consts.SortFloat_DECODE_ERROR = Msgs.INVALID_SORT_FLOAT_MSG := rfl
 theorem const_MAX_STRING_SIZE_eq : Generated.Consts.MAX_STRING_SIZE = Conv.MAX_STRING_SIZE := by decide
 theorem notQueued_eq : Generated.Consts.notQueued = SigTable.notQueued := rfl
+theorem notInMulti_eq : Generated.Consts.notInMulti = SigTable.notInMulti := rfl
 theorem pubsubAllowed_eq : Generated.Consts.pubsubAllowed = SigTable.pubsubAllowed := rfl
 /-- `Float.encode` uses exactly the two formats the model implements (`fmtF17Human`, `fmtG17`) -/
 theorem floatFormats_eq : Generated.Consts.floatFormats = ["{:.17f}", "{:.17g}"] := rfl
